@@ -481,7 +481,7 @@ func c10diff(got, want m) string {
 
 func TestC10Valid(t *testing.T) {
 	e := vlib.GetEnv()
-	n := e.Pick(800, 30000)
+	n := e.Pick(800, 120000)
 	vlib.RunCases(t, "C10", "valid", n, func(c *vlib.Case) vlib.Result {
 		var res vlib.Result
 		g := c10gen{c.Rng}
@@ -701,7 +701,7 @@ var c10faults = []c10fault{
 
 func TestC10Reject(t *testing.T) {
 	e := vlib.GetEnv()
-	n := e.Pick(600, 20000)
+	n := e.Pick(600, 80000)
 	vlib.RunCases(t, "C10", "reject", n, func(c *vlib.Case) vlib.Result {
 		var res vlib.Result
 		g := c10gen{c.Rng}
@@ -744,7 +744,7 @@ func TestC10Reject(t *testing.T) {
 
 func TestC10Fuzz(t *testing.T) {
 	e := vlib.GetEnv()
-	n := e.Pick(300, 4000)
+	n := e.Pick(300, 16000)
 	dict := []string{"configVersion", "v1", "v0", "onStartup", "schedule", "kubernetes", "crontab", "kind", "Pod", "name", "queue", "group", "includeSnapshotsFrom", "jqFilter",
 		"executeHookOnEvent", "Added", "nameSelector", "matchNames", "namespace", "labelSelector", "matchLabels", "matchExpressions", "operator", "In", "values", "fieldSelector",
 		"kubernetesValidating", "kubernetesMutating", "kubernetesCustomResourceConversion", "conversions", "fromVersion", "toVersion", "crdName", "settings", "executionMinInterval", "executionBurst",
